@@ -303,6 +303,16 @@ func ruleNodeLayer(c *Ctx) {
 										if isBuiltinCall(info, y, "copy") && len(y.Args) == 2 && reads(y.Args[0], newV, fname) && (reads(y.Args[1], xv, "children") || reads(y.Args[1], xv, "keys")) {
 											written = true
 										}
+										// setAtPos(&new.keys, i, old.keys[i]): a library helper that writes through the
+										// argument naming the new node's field, fed from the old node
+										if f := m.staticCallee(y); f != nil && f.Pkg() == m.Pkg {
+											w := c.e.writesThrough(f)
+											for ai, a := range y.Args {
+												if w[ai] && reads(a, newV, fname) && (reads(earlier, xv, "children") || reads(earlier, xv, "keys")) {
+													written = true
+												}
+											}
+										}
 									}
 									return true
 								})
